@@ -161,3 +161,39 @@ def accepts(s):
         return True
     except Reject:
         return False
+
+
+# ------------------------------------------------------------------ AHB expressions (independent reading of the documented forms)
+MODAL_SPELLINGS = ("muss", "soll", "kann", "m", "s", "k")
+
+
+def ahb_accepts(s):
+    """True if s is an AHB expression of one of the documented forms -- one or more modal-mark parts (M/Muss, S/Soll, K/Kann in any letter case, each
+    followed by a condition expression of the documented language), optionally ending in a bare modal mark; one prefix-operator part (X/O/U in any
+    letter case followed by a condition expression); a bare indicator. None whenever the documentation does not fix the verdict for s (this function
+    never says False: what must be rejected is judged elsewhere)."""
+    if not isinstance(s, str) or not s:
+        return None
+    if s in ("X", "O", "U", "x", "o", "u"):
+        return True
+    if s[0] in "XOUxou":
+        return True if accepts(s[1:]) is True else None
+    i, n, parts = 0, len(s), 0
+    while i < n:
+        low = s[i:i + 4].lower()
+        m = next((sp for sp in MODAL_SPELLINGS if low.startswith(sp)), None)
+        if m is None or not s[i:i + len(m)].isascii():
+            return None
+        i += len(m)
+        j = i
+        while j < n and s[j] not in "MSKmsk":
+            j += 1
+        cond = s[i:j]
+        if cond == "":
+            # a bare modal mark: only as the very last thing
+            return True if j == n else None
+        if accepts(cond) is not True:
+            return None
+        parts += 1
+        i = j
+    return True if parts else None
